@@ -40,7 +40,7 @@ def localRank (n : Nat) : Pc → Nat
   | .readList => 10
   | .sloop => 9
   | .blocked _ => 1
-  | .done | .fail _ | .crash | .stuck | .hung _ => 0
+  | .done | .fail _ | .crash | .stuck | .hung _ | .tee => 0
 
 def measure (C : List Feature) (c : Conf) : Nat :=
   (50 + C.length) * (scriptSize c.script + pend c.pc) + c.picks.length + localRank C.length c.pc
